@@ -231,10 +231,10 @@ static bool case_c12(const Plan& pl, Stats& st, Violation& v) {
 struct ChooserCtx {
   const Plan* pl; Rng rng; size_t pos = 0; int ntasks; bool explicit_sched;
   std::vector<Seg> taken;             // the schedule actually taken, for the replay file
-  bool monitor_static = false; int64_t static_diff_off = -1; uint64_t static_checks = 0, rebaselined = 0;
-  int pending_watch_task = -1; uint32_t pending_watch_guard = 0; uint64_t colocated = 0;
+  bool monitor_static = false; int64_t static_diff_off = -1, unguarded_off = -1; uint64_t static_checks = 0, rebaselined = 0;
+  std::vector<uint64_t> brackets;     // per task: guard_brackets seen at the previous turn
+  uint64_t colocated = 0;
   TaskCtx** ctxs = nullptr;
-  uint64_t logdig = 1469598103934665603ull;
 };
 static FILE* g_sched_log = nullptr;
 static void chooser(void* vctx, uint64_t alive, int last, uint32_t last_guard, int* task, uint64_t* q) {
@@ -242,8 +242,17 @@ static void chooser(void* vctx, uint64_t alive, int last, uint32_t last_guard, i
   if (c->monitor_static) {
     ++c->static_checks;
     int64_t off = rt_static_diff();
-    if (off >= 0) { if (c->static_diff_off < 0) c->static_diff_off = off; ++c->rebaselined; rt_static_snapshot(); }
+    if (off >= 0) {
+      if (c->static_diff_off < 0) c->static_diff_off = off;
+      // a write to static storage by a task that did not go through a function-local-static guard in this
+      // segment is unsynchronised (even if it happens only once: racy lazy initialisation)
+      bool guarded = last >= 0 && c->ctxs && c->ctxs[last] && c->ctxs[last]->guard_brackets != c->brackets[(size_t)last];
+      if (!guarded && last >= 0 && c->unguarded_off < 0) c->unguarded_off = off;
+      ++c->rebaselined; rt_static_snapshot();
+    }
+    if (last >= 0 && c->ctxs && c->ctxs[last]) c->brackets[(size_t)last] = c->ctxs[last]->guard_brackets;
   }
+  if (!alive) return;
   auto lowest = [&]() { int t = 0; while (!(alive >> t & 1)) ++t; return t; };
   if (c->explicit_sched) {
     if (c->pos < c->pl->sched.size()) { const Seg& s = c->pl->sched[c->pos++]; *task = (s.task >= 0 && s.task < c->ntasks && (alive >> s.task & 1)) ? s.task : lowest(); *q = s.quantum;
@@ -285,13 +294,19 @@ static bool g_static_monitor = false;
 
 static bool case_c14(const Plan& pl0, Stats& st, Violation& v) {
   Plan pl = pl0;
-  // sequential reference: every task's program run one after another on the main thread
   RunCtl ctl; ctl.env = pl.env;
-  sim_status_run(g_cur_run, 1, 0, 0);
-  RunOut ref; exec_seq(pl, ctl, ref); ++st.evals; st.steps += ref.steps;
-  // resolve the optional fault modulo the op's allocation count (plan stays valid under shrinking)
+  RunOut ref; bool have_ref = false;
+  auto run_ref = [&]() {
+    // sequential reference: every task's program run one after another on the main thread
+    sim_status_run(g_cur_run, 1, 0, 0);
+    exec_seq(pl, ctl, ref); ++st.evals; st.steps += ref.steps; have_ref = true;
+  };
+  // The optional fault is resolved modulo the op's allocation count (the plan stays valid under shrinking), which needs
+  // the reference first. Without a fault the interleaved execution goes FIRST, so that whatever the library initialises
+  // lazily is initialised while several threads are in flight (cold start), not by the single-threaded reference.
   Fault ft;
   if (!pl.faults.empty()) {
+    run_ref();
     const OpResult* r = find_res(ref, pl.faults[0].op);
     if (r && r->allocs > 0) { ft = pl.faults[0]; ft.alloc = pl.faults[0].alloc % r->allocs; RunCtl cf = ctl; cf.fault = ft; RunOut rf; exec_seq(pl, cf, rf); ref = std::move(rf); ++st.evals; ++st.fault_runs; }
   }
@@ -301,12 +316,12 @@ static bool case_c14(const Plan& pl0, Stats& st, Violation& v) {
     TaskOut setup; std::vector<TaskOut> outs((size_t)pl.ntasks);
     WorkShared* ws = work_shared_create(pl, setup, 0);
     ChooserCtx cc; cc.pl = &pl; cc.rng = Rng(pl.sched_seed); cc.ntasks = pl.ntasks; cc.explicit_sched = !pl.sched.empty(); cc.monitor_static = g_static_monitor;
+    cc.brackets.assign((size_t)pl.ntasks, 0);
     std::vector<TaskCtx*> ctxs((size_t)pl.ntasks, nullptr); cc.ctxs = ctxs.data();
     if (cc.monitor_static) rt_static_snapshot();
     TaskArg ta{&pl, ws, &outs}; PrepCtx pc{&pl, ft};
     std::vector<SchedSeg> log(4096); size_t nlog = 0; SchedResult sr;
     rt_run_tasks(pl.ntasks, task_fn, &ta, chooser, &cc, 100000000ull, log.data(), log.size(), &nlog, &sr, ctxs.data(), prep_fn, &pc);
-    if (cc.monitor_static) { int64_t off = rt_static_diff(); ++cc.static_checks; if (off >= 0) { if (cc.static_diff_off < 0) cc.static_diff_off = off; ++cc.rebaselined; rt_static_snapshot(); } }
     work_shared_destroy(ws);
     if (ft.op >= 0) rt_arena_expect_leaks();
     rt_env_release();
@@ -315,6 +330,7 @@ static bool case_c14(const Plan& pl0, Stats& st, Violation& v) {
     for (size_t k = 0; k < nlog; ++k) { h ^= ((uint64_t)log[k].task << 56) ^ (log[k].ran << 20) ^ ((uint64_t)log[k].at_guard << 2) ^ (uint64_t)log[k].why; h *= 1099511628211ull; h ^= h >> 29; steps += log[k].ran; if (log[k].why == 1) ++st.yields_cb; }
     st.steps += steps;
     if (sr.tasks_preempted_in_lib >= 2 && rep == 0) { ++st.runs_two_preempted; st.keys.insert(h); }
+    if (!have_ref) run_ref();
     if (rep == 0) st.digest = run_digest(ref) ^ (h * 0x9E3779B97F4A7C15ull);
     // explicit schedule for the replay file
     Plan exp = pl; if (!cc.explicit_sched) { exp.sched = cc.taken; }
@@ -323,11 +339,16 @@ static bool case_c14(const Plan& pl0, Stats& st, Violation& v) {
     RunOut inter; inter.setup = std::move(setup); inter.tasks = std::move(outs);
     std::string d = cmp_runs(ref, inter, false);
     if (!d.empty()) { v.cls = "differs-from-sequential"; v.sig = v.cls; v.detail = "operations on independent objects returned something else when interleaved with other threads than when run one after another: " + d; v.plan = exp; return true; }
-    // detector B: static storage written by library code (classified by recurrence)
+    // detector B: static storage written by library code
     if (!cc.monitor_static || cc.static_diff_off < 0) return false;
-    if (rep == 0) { st.static_rebaselined += cc.rebaselined; continue; }   // changed once: run the same plan again
-    char b[200]; snprintf(b, sizeof b, "library static storage at offset 0x%" PRIx64 " of libclipsim.so changes on every execution (mutable state outside caller-owned objects)", (uint64_t)cc.static_diff_off);
-    v.cls = "static-write"; v.sig = v.cls; v.detail = b; v.plan = exp; return true;
+    char b[240];
+    if (cc.unguarded_off >= 0) {
+      snprintf(b, sizeof b, "a task wrote library static storage at offset 0x%" PRIx64 " of libclipsim.so outside any function-local-static guard (unsynchronised initialisation or mutable global state)", (uint64_t)cc.unguarded_off);
+      v.cls = "static-write"; v.sig = "static-write unguarded"; v.detail = b; v.plan = exp; return true;
+    }
+    if (rep == 0) { st.static_rebaselined += cc.rebaselined; continue; }   // guarded one-time initialisation: must not recur
+    snprintf(b, sizeof b, "library static storage at offset 0x%" PRIx64 " of libclipsim.so changes on every execution (mutable state outside caller-owned objects)", (uint64_t)cc.static_diff_off);
+    v.cls = "static-write"; v.sig = "static-write recurring"; v.detail = b; v.plan = exp; return true;
   }
   return false;
 }
